@@ -46,7 +46,7 @@ theorem rootOpen_addTeardown (w : World) (tds : List Cb) (cb : Cb) (h : RootOpen
   simp only [step, onCtx, hx, hs, CState.usable]
   exact ctx?_setCtx_same _ _ _
 
-theorem rootOpen_regs (regs : List (Nat × Bool)) (w : World) (tds : List Cb) (h : RootOpen w tds) :
+theorem rootOpen_regs (regs : List RegSpec) (w : World) (tds : List Cb) (h : RootOpen w tds) :
     RootOpen (run w (regs.map fun r => Op.addTeardown 1 (regCb r) true)).1
       ((regs.map regCb).reverse ++ tds) := by
   induction regs generalizing w tds with
@@ -68,14 +68,30 @@ theorem rootOpen_runOps (c : RunCase) :
 
 /-! ### the final step -/
 
-/-- The callbacks of the runner model are synchronous and register nothing, so the stack runs as
-registered however the block is left (also when a crashing service task cancels it). -/
-theorem effStack_regs (be : BlockEnd) (regs : List (Nat × Bool)) :
+/-- What a callback registers while running is synchronous and registers nothing: cancellation
+of the block does not affect it. -/
+theorem lateCb_underCancel (r : Nat × Bool) : (lateCb r).underCancel = lateCb r :=
+  Cn.underCancel_sync_leaf r.1 r.2 [] none
+
+theorem map_lateCb_underCancel (l : List (Nat × Bool)) :
+    (l.map lateCb).map Cb.underCancel = l.map lateCb := by
+  rw [List.map_map]
+  exact List.map_congr_left (fun r _ => lateCb_underCancel r)
+
+/-- A registered callback is synchronous, and so is everything it registers. -/
+theorem regCb_underCancel (r : RegSpec) : (regCb r).underCancel = regCb r := by
+  unfold regCb
+  rw [underCancel_sync, map_lateCb_underCancel]
+
+/-- The callbacks of the runner model are synchronous (also those registered during the
+teardown), so the stack runs as registered however the block is left (also when a crashing
+service task cancels it). -/
+theorem effStack_regs (be : BlockEnd) (regs : List RegSpec) :
     effStack be (regs.map regCb).reverse = (regs.map regCb).reverse := by
   apply Cn.effStack_of_fixed
   intro c hc
   obtain ⟨r, _, rfl⟩ := List.mem_map.1 (List.mem_reverse.1 hc)
-  exact Cn.underCancel_sync_leaf r.1 r.2 [] none
+  exact regCb_underCancel r
 
 /-- The trace of `runApp`: the teardown of the registered stack, `closed`, the outcome. -/
 theorem runApp_trace (c : RunCase) :
@@ -94,6 +110,59 @@ theorem runApp_trace (c : RunCase) :
     rw [run_snoc_getLast, step_exit _ 0 1 _ x hx hs, ht, hp, hc, effStack_regs]
     rfl
   exact ⟨_, _, h⟩
+
+/-! ### the callbacks that run, as ids and flags -/
+
+theorem flatMap_congr' {α β : Type} (l : List α) (f g : α → List β) (h : ∀ a ∈ l, f a = g a) :
+    l.flatMap f = l.flatMap g := by
+  induction l with
+  | nil => rfl
+  | cons a l ih =>
+    rw [List.flatMap_cons, List.flatMap_cons, h a List.mem_cons_self,
+      ih (fun b hb => h b (List.mem_cons_of_mem _ hb))]
+
+theorem perm_flatMap_left {α β : Type} (l : List α) (f g : α → List β)
+    (h : ∀ a ∈ l, (f a).Perm (g a)) : (l.flatMap f).Perm (l.flatMap g) := by
+  induction l with
+  | nil => exact List.Perm.refl _
+  | cons a l ih =>
+    rw [List.flatMap_cons, List.flatMap_cons]
+    exact (h a List.mem_cons_self).append (ih (fun b hb => h b (List.mem_cons_of_mem _ hb)))
+
+/-- Everything that runs, as callbacks: last registered first, what a callback registers while
+running right after it, again last registered first. -/
+def expectedCbs (regs : List RegSpec) : List Cb :=
+  regs.reverse.flatMap fun r => regCb r :: (r.late.map lateCb).reverse
+
+theorem expectedCbs_key (regs : List RegSpec) :
+    (expectedCbs regs).map (fun cb => (cb.id, cb.passExc)) = expectedOrder regs := by
+  unfold expectedCbs expectedOrder
+  rw [List.map_flatMap]
+  apply flatMap_congr'
+  intro r _
+  rw [List.map_cons, ← List.map_reverse, List.map_map]
+  change (r.id, r.pass) :: r.late.reverse.map (fun q => (q.1, q.2)) = _
+  rw [List.map_id']
+
+/-- None of them raises. -/
+theorem expectedCbs_raises (regs : List RegSpec) : ∀ cb ∈ expectedCbs regs, cb.raises = none := by
+  intro cb h
+  obtain ⟨r, _, h⟩ := List.mem_flatMap.1 h
+  rcases List.mem_cons.1 h with h | h
+  · rw [h]; rfl
+  · obtain ⟨q, _, rfl⟩ := List.mem_map.1 (List.mem_reverse.1 h)
+    rfl
+
+/-- The ids in `expectedOrder` are those of everything registered, each once. -/
+theorem expectedOrder_ids_perm (regs : List RegSpec) :
+    ((expectedOrder regs).map Prod.fst).Perm (regs.flatMap fun r => r.id :: r.late.map Prod.fst) := by
+  unfold expectedOrder
+  rw [List.map_flatMap]
+  refine (List.Perm.flatMap_right _ (List.reverse_perm regs)).trans ?_
+  apply perm_flatMap_left
+  intro r _
+  rw [List.map_cons, List.map_reverse]
+  exact List.Perm.cons _ (List.reverse_perm _)
 
 theorem runApp_exit (c : RunCase) : (runApp c).2 = exitOf c.ending := rfl
 
